@@ -3,6 +3,7 @@
   Property-level statements; proofs are in Emitter/Lemmas/Message.lean.
 -/
 import Emitter.Lemmas.Message
+import Emitter.Props.Tie.Id
 namespace Emitter.C19
 open Emitter Emitter.Message
 
